@@ -219,10 +219,18 @@ def kernel(cfg, pos, named, n, draws, observed, meta_bi):
         return d
     shape = tuple(cfg.get('shape', ()))
     if not shape:
-        return acc
-    k = int(np.prod(shape))
-    cols = acc[:, None] * (1.0 + 0.1 * np.arange(k)) + np.arange(k) * (0.0 if smooth else 1.0)
-    return cols.reshape((n,) + shape)
+        res = acc
+    else:
+        k = int(np.prod(shape))
+        cols = acc[:, None] * (1.0 + 0.1 * np.arange(k)) + np.arange(k) * (0.0 if smooth else 1.0)
+        res = cols.reshape((n,) + shape)
+    dt = cfg.get('dtype')
+    if dt == 'int':
+        # unique-looking integers (rows stay content-addressed through the other outputs)
+        res = np.floor(res * 1e6).astype(np.int64)
+    elif dt == 'f4':
+        res = res.astype(np.float32)
+    return res
 
 
 class RecOp:
@@ -436,7 +444,8 @@ def gen_inference_spec(tape, disc_kinds=('disc', 'dist'), max_priors=3, extra_sh
             par = tape.choice('extra_parent', ['sim'] + snames)
             nodes.append({'name': 'x%d' % j, 'kind': 'op', 'parents': [par],
                           'cfg': {'node': 'x%d' % j, 'kind': 'op', 'shape': shp, 'mode': mode,
-                                  'salt': 0.7 + j}})
+                                  'salt': 0.7 + j,
+                                  'dtype': tape.choice('extra_dtype', [None, None, 'int', 'f4'])}})
             extras.append('x%d' % j)
     return {'nodes': nodes, 'params': pnames, 'sums': snames, 'disc': 'd', 'extras': extras,
             'mode': mode}
